@@ -64,6 +64,10 @@ type iFile struct {
 	Includes []*iInc
 }
 
+// hasDG: the file declares the derived global variable DG_f<idx> (no extra choice is drawn for it, so that
+// recorded choice streams keep their meaning).
+func (f *iFile) hasDG() bool { return f.GV != "" || f.Idx%2 == 1 }
+
 type iProg struct {
 	Files []*iFile
 	C09   bool
@@ -239,7 +243,11 @@ func (p *iProg) allNS() []string {
 func (p *iProg) fileYAML(f *iFile) string {
 	var sb strings.Builder
 	fmt.Fprintf(&sb, "version: '%s'\n", f.Version)
-	if f.GV != "" || f.Shared != "" || f.Dyn {
+	var ivs []string
+	for _, n := range p.allNS() {
+		ivs = append(ivs, fmt.Sprintf("%s={{.IV_%s}}", n, n))
+	}
+	if f.GV != "" || f.Shared != "" || f.Dyn || f.hasDG() {
 		sb.WriteString("vars:\n")
 		if f.Dyn {
 			fmt.Fprintf(&sb, "  DV_f%d:\n    sh: pwd\n", f.Idx)
@@ -249,6 +257,11 @@ func (p *iProg) fileYAML(f *iFile) string {
 		}
 		if f.Shared != "" {
 			fmt.Fprintf(&sb, "  SHARED: %s\n", f.Shared)
+		}
+		if f.hasDG() {
+			// a global variable of this file derived from the variables its includer passes (the documented
+			// `{{.X | default ...}}` idiom): must see the include vars of the chain it was reached through
+			fmt.Fprintf(&sb, "  DG_f%d: %s\n", f.Idx, yq("d["+strings.Join(ivs, ",")+"]"))
 		}
 	}
 	if len(f.Includes) > 0 {
@@ -298,10 +311,6 @@ func (p *iProg) fileYAML(f *iFile) string {
 		}
 	}
 	sb.WriteString("tasks:\n")
-	var ivs []string
-	for _, n := range p.allNS() {
-		ivs = append(ivs, fmt.Sprintf("%s={{.IV_%s}}", n, n))
-	}
 	for _, t := range f.Tasks {
 		fmt.Fprintf(&sb, "  %s:\n    desc: task %s of f%d\n", t.Name, t.Name, f.Idx)
 		if len(t.Aliases) > 0 {
@@ -347,7 +356,7 @@ func (p *iProg) fileYAML(f *iFile) string {
 			}
 		}
 		sb.WriteString("    cmds:\n")
-		line := fmt.Sprintf(`echo "I|f%d|%s|PWD=$(pwd)|GV={{.GV_f%d}}|SH={{.SHARED}}|%s"`, f.Idx, t.Name, f.Idx, strings.Join(ivs, ","))
+		line := fmt.Sprintf(`echo "I|f%d|%s|PWD=$(pwd)|GV={{.GV_f%d}}|SH={{.SHARED}}|%s|DG={{.DG_f%d}}"`, f.Idx, t.Name, f.Idx, strings.Join(ivs, ","), f.Idx)
 		fmt.Fprintf(&sb, "      - cmd: %s\n", yq(line))
 		for _, c := range t.Calls {
 			fmt.Fprintf(&sb, "      - task: %s\n", yq(c))
@@ -523,7 +532,11 @@ func (m *iModel) line(e *iEntry, dir string) string {
 		}
 		ivs = append(ivs, n+"="+v)
 	}
-	return fmt.Sprintf("I|f%d|%s|PWD=%s|GV=%s|SH=*|%s", e.File.Idx, e.Task.Name, pwd, gv, strings.Join(ivs, ","))
+	dg := ""
+	if e.File.hasDG() {
+		dg = "d[" + strings.Join(ivs, ",") + "]"
+	}
+	return fmt.Sprintf("I|f%d|%s|PWD=%s|GV=%s|SH=*|%s|DG=%s", e.File.Idx, e.Task.Name, pwd, gv, strings.Join(ivs, ","), dg)
 }
 
 func wildEq(want, got string) bool {
